@@ -340,7 +340,7 @@ func (c *Ctx) r0132(pk *packages.Package) {
 // R01.33: a literal that may underflow to zero is not taken for truthy.
 func (c *Ctx) r0133(pk *packages.Package) {
 	const rule = "R01.33"
-	c.R.Rule(rule, "`1e-400` is 0. In js.isFalsy the verdict `truthy` for a numeric literal — a return of (negated, true) inside the loop over the literal's characters — is dominated by a test that looks for a negative exponent (a condition with the constant `e-`, `E-` or '-'); judging by the mantissa alone folds `1e-400?a():b()` to `a()`")
+	c.R.Rule(rule, "`1e-400` is 0. In js.isFalsy the verdict `truthy` for a numeric literal — a return of (negated, true) inside the loop over the literal's characters — is separated from the head of the loop, for either spelling of the exponent marker, by a test that looks for a negative exponent (a condition with the constant `e-` resp. `E-`, or '-'); judging by the mantissa alone folds `1e-400?a():b()` to `a()`")
 	fd := c.fn(rule, pk, "isFalsy")
 	if fd == nil {
 		return
@@ -384,25 +384,29 @@ func (c *Ctx) r0133(pk *packages.Package) {
 			c.R.Unres(rule, fmt.Sprintf("js.isFalsy/numeric literal truthy#%d", n), c.pos(rs), "loop head not found in the flow graph")
 			continue
 		}
-		// an outcome that has looked at the exponent sign, or that knows the literal to have a radix prefix (no exponent)
-		considered := func(q *flow.Node) bool {
-			if (q.Kind != flow.KTrue && q.Kind != flow.KFalse) || q.Of == nil || q.Of.Kind != flow.KCond {
-				return false
-			}
-			chars, strs, _ := c.constsIn(pk, q.Of.Expr)
-			if chars['-'] || strs["e-"] || strs["E-"] || strs["-"] {
-				return true
-			}
-			if id, ok := ast.Unparen(q.Of.Expr).(*ast.Ident); ok && q.Kind == flow.KTrue {
-				if d := c.singleDef(pk, id); d != nil && strings.Contains(str(d), "HexadecimalToken") && !strings.Contains(str(d), "DecimalToken") {
+		// an outcome that has looked at the exponent sign, or that knows the literal to have a radix prefix (no exponent);
+		// the exponent marker is written in either case (`1e-400`, `1E-400`): one search per spelling
+		for _, marker := range []string{"e-", "E-"} {
+			marker := marker
+			considered := func(q *flow.Node) bool {
+				if (q.Kind != flow.KTrue && q.Kind != flow.KFalse) || q.Of == nil || q.Of.Kind != flow.KCond {
+					return false
+				}
+				chars, strs, _ := c.constsIn(pk, q.Of.Expr)
+				if chars['-'] || strs[marker] || strs["-"] {
 					return true
 				}
+				if id, ok := ast.Unparen(q.Of.Expr).(*ast.Ident); ok && q.Kind == flow.KTrue {
+					if d := c.singleDef(pk, id); d != nil && strings.Contains(str(d), "HexadecimalToken") && !strings.Contains(str(d), "DecimalToken") {
+						return true
+					}
+				}
+				return false
 			}
-			return false
+			p := g.Path(flow.Search{From: []*flow.Node{head}, Goal: func(q *flow.Node) bool { return q == y }, Avoid: considered})
+			c.R.Check(p == nil, rule, fmt.Sprintf("js.isFalsy/numeric literal truthy#%d only without a negative exponent written %s", n, marker), c.pos(rs), "behind a test for a negative exponent (or for a radix prefix)",
+				"a numeric literal with a non-zero digit in its mantissa is taken for truthy without looking for the exponent `"+marker+"`: `1"+marker+"400` is 0, so `1"+marker+"400?a():b()` must not become `a()`: "+pathStr(c, g, p))
 		}
-		p := g.Path(flow.Search{From: []*flow.Node{head}, Goal: func(q *flow.Node) bool { return q == y }, Avoid: considered})
-		c.R.Check(p == nil, rule, fmt.Sprintf("js.isFalsy/numeric literal truthy#%d only without a negative exponent", n), c.pos(rs), "behind a test for a negative exponent (or for a radix prefix)",
-			"a numeric literal with a non-zero digit in its mantissa is taken for truthy without looking at the exponent: `1e-400` is 0, so `1e-400?a():b()` must not become `a()`: "+pathStr(c, g, p))
 	}
 	c.R.Floor(rule, "truthy verdicts inside the digit loop of isFalsy", n, 1)
 }
